@@ -1,6 +1,33 @@
 (* WfOpen.v -- property C04, layout-independent direction: every image accepted by
-   the independent MS-CFB checker [wf_check] (spec/WfImage.v) is opened by the model
-   of CompoundFile::open_strict. *)
+   the independent MS-CFB checker [wf_check] (spec/WfImage.v, 50 rules) is opened by
+   the model of CompoundFile::open_strict, and the state it returns carries exactly the
+   tables the checker computed.
+
+   Main results (no hypothesis other than the two premises shown)
+     wf_open_opened   wf_check bytes = 0 -> bytes_ok bytes = true ->
+                      exists c, wf_cert_ok bytes c /\
+                        open_model true bytes = Ok (opened bytes c (ck_dirents bytes c))
+     wf_open_ok       wf_check bytes = 0 -> bytes_ok bytes = true ->
+                      exists st, open_model true bytes = Ok st
+     wf_open_opened_permissive, wf_open_ok_permissive   the same for open (permissive)
+   [bytes_ok bytes] says that every element of the list is a byte (< 256).  The model's
+   type [byte] is N, and the theorem is false without it ([Gaps.bytes_ok_needed]: a name
+   unit "byte" of 70000 passes every rule of the checker and decodes to a scalar value
+   that the decoder re-encodes as two UTF-16 units, making the name too long).
+
+   Sections
+     0      inversion of the checker stage by stage ([wf_cert], [wf_certificate])
+     1-3    geometry, DIFAT walk, header (stage 1)
+     4-7    FAT load, ownership => Allocator::validate (stages 2, 3), composition
+     8-9    MiniFAT load and MiniAllocator::validate (stage 5), composition
+     10-12  stage 4: reading the directory chain, decoding one slot from [entry_ok]
+     13     stage 4: [sib_walk] / [tree_walk] inverted into a tree certificate [NT]
+     14     stage 4: Directory::validate (the explicit-stack DFS) on that certificate
+     15     stage 4: [entry_ok] for the root, every reached node and every blank slot
+     16     the converse theorem
+     17     the six gaps of the 44-rule checker, now closed by rules 45-50; bytes_ok;
+            non-vacuity
+   Stdlib only; no axioms; every proof is complete. *)
 From Coq Require Import List NArith Lia Bool ZifyN ZifyBool Permutation.
 From Cfb.model Require Import Base Names Time DirEnt State Alloc Dir Mini Store Handle Open Cfb.
 From Cfb.gen Require Import Consts.
@@ -68,6 +95,7 @@ Definition ck_fat (bytes : list byte) (difat_all : list N) : list N :=
 
 Lemma wf_inv_body : forall bytes, wf_check bytes = 0 ->
   lenN bytes mod ck_sl bytes = 0 /\ 2 * ck_sl bytes <= lenN bytes /\
+  ck_ns bytes <= MAX_REGULAR_SECTOR /\
   exists difat_ids difat_all, ck_difat bytes = Some (difat_ids, difat_all) /\
     stage_fat (ck_sl bytes) (ck_ns bytes) (ck_per bytes) (vnum_of bytes) (ck_sec bytes)
               (u32_at bytes 40) (u32_at bytes 44) (u32_at bytes 48)
@@ -79,8 +107,9 @@ Proof.
   unfold ck_difat, ck_sec, ck_secs, ck_ns, ck_per, ck_sl.
   destruct (lenN bytes mod 2 ^ shift_of bytes =? 0) eqn:E8; cbn [negb] in H; [|discriminate].
   destruct (lenN bytes <? 2 * 2 ^ shift_of bytes) eqn:E9; [discriminate|].
+  destruct (MAX_REGULAR_SECTOR <? lenN bytes / 2 ^ shift_of bytes - 1) eqn:E45; [discriminate|].
   match type of H with match ?d with _ => _ end = 0 => destruct d as [[ids all]|] eqn:E10; [|discriminate] end.
-  split; [lia|]. split; [lia|]. exists ids, all. split; [reflexivity|exact H].
+  split; [lia|]. split; [lia|]. split; [apply N.ltb_ge; exact E45|]. exists ids, all. split; [reflexivity|exact H].
 Qed.
 
 Record fat_facts (bytes : list byte) (difat_ids difat_all own1 : list N) : Prop := mkFatFacts {
@@ -477,7 +506,7 @@ Lemma wf_facts : forall bytes, wf_check bytes = 0 ->
     stage_dir (ck_sl bytes) (ck_per bytes) (vnum_of bytes) (ck_sec bytes) (ck_fat bytes difat_all)
               (u32_at bytes 40) (u32_at bytes 48) (u32_at bytes 60) (u32_at bytes 64) own1 = 0.
 Proof.
-  intros bytes H. destruct (wf_inv_body bytes H) as (Hmod & Hlen & ids & all & Hd & Hf).
+  intros bytes H. destruct (wf_inv_body bytes H) as (Hmod & Hlen & _ & ids & all & Hd & Hf).
   destruct (wf_inv_fat _ _ _ Hf) as (own1 & HF & Hdir).
   exists ids, all, own1. split; [exact Hmod|]. split; [exact Hlen|]. split; [exact Hd|].
   split; [exact HF|exact Hdir].
@@ -545,8 +574,13 @@ Record tree_facts (es : list wentry) (root : wentry) (reach : list N) : Prop := 
   tf_root_name : exists n, scalars (w_name root) = Some n /\ n = ROOT_DIR_NAME;
   tf_root_left : w_left root = NO_STREAM;
   tf_root_right : w_right root = NO_STREAM;
+  tf_root_color : w_color root = COLOR_RED \/ w_color root = COLOR_BLACK;
+  tf_root_nameok : exists n, name_ok root = Some n;
   tf_walk : tree_walk (S (length es)) es [w_child root] [0] = Some reach;
   tf_blank : forall i e, nthN es i = Some e -> memN i reach = false -> blank_entry e = true;
+  tf_blank_even : forall i e, nthN es i = Some e -> memN i reach = false -> w_namelen e mod 2 = 0;
+  tf_storage : forall i e, nthN es i = Some e -> w_type e = OBJ_TYPE_STORAGE -> memN i reach = true ->
+     w_start e = 0 /\ w_len e = 0;
   tf_stream : forall i e, nthN es i = Some e -> w_type e = OBJ_TYPE_STREAM -> memN i reach = true ->
      w_clsid_zero e = true /\ w_ctime e = 0 /\ w_mtime e = 0 /\ w_child e = NO_STREAM
 }.
@@ -561,16 +595,31 @@ Proof.
   destruct (scalars (w_name root)) as [n|] eqn:E28s; cbn [negb] in H; [|discriminate].
   destruct (list_eqb N.eqb n ROOT_DIR_NAME) eqn:E28; cbn [negb] in H; [|discriminate].
   destruct ((w_left root =? NO_STREAM) && (w_right root =? NO_STREAM)) eqn:E29; cbn [negb] in H; [|discriminate].
+  destruct ((w_color root =? COLOR_RED) || (w_color root =? COLOR_BLACK)) eqn:E46; cbn [negb] in H; [|discriminate].
+  destruct (name_ok root) as [rn|] eqn:E47; cbn [negb] in H; [|discriminate].
   destruct (tree_walk (S (length es)) es [w_child root] [0]) as [reach|] eqn:E30; [|discriminate].
   match type of H with (if negb ?c then _ else _) = 0 => destruct c eqn:E31; cbn [negb] in H; [|discriminate] end.
+  match type of H with (if negb ?c then _ else _) = 0 => destruct c eqn:E48; cbn [negb] in H; [|discriminate] end.
   match type of H with (if negb ?c then _ else _) = 0 => destruct c eqn:E32; cbn [negb] in H; [|discriminate] end.
+  match type of H with (if negb ?c then _ else _) = 0 => destruct c eqn:E49; cbn [negb] in H; [|discriminate] end.
+  match type of H with (if negb ?c then _ else _) = 0 => destruct c eqn:E50; cbn [negb] in H; [|discriminate] end.
   exists reach. split; [|exact H].
   apply andb_true_iff in E29. destruct E29 as [E29a E29b].
-  constructor; try lia.
+  constructor.
+  - lia.
   - exists n. split; [first [exact E28s|reflexivity]|]. apply StrictProofs.list_eqb_eq. exact E28.
+  - lia.
+  - lia.
+  - apply orb_true_iff in E46. destruct E46 as [E|E]; [left|right]; lia.
+  - exists rn. exact E47.
   - first [exact E30|reflexivity].
   - intros i e Hi Hm. pose proof (forallb_nth_index _ _ _ _ E31 i e Hi) as Hb. cbv beta iota in Hb.
     rewrite N.add_0_l, Hm in Hb. exact Hb.
+  - intros i e Hi Hm. pose proof (forallb_nth_index _ _ _ _ E48 i e Hi) as Hb. cbv beta iota in Hb.
+    rewrite N.add_0_l, Hm in Hb. lia.
+  - intros i e Hi Ht Hm. pose proof (forallb_nth_index _ _ _ _ E49 i e Hi) as Hb.
+    pose proof (forallb_nth_index _ _ _ _ E50 i e Hi) as Hb2. cbv beta iota in Hb, Hb2.
+    rewrite N.add_0_l, Hm, Ht, N.eqb_refl in Hb, Hb2. cbn [andb] in Hb, Hb2. lia.
   - intros i e Hi Ht Hm. pose proof (forallb_nth_index _ _ _ _ E32 i e Hi) as Hb. cbv beta iota in Hb.
     rewrite N.add_0_l, Hm, Ht, N.eqb_refl in Hb. cbn [andb] in Hb.
     apply andb_true_iff in Hb. destruct Hb as [Hb H4]. apply andb_true_iff in Hb. destruct Hb as [Hb H3].
@@ -1553,7 +1602,7 @@ Definition dirents_of (bytes : list byte) (c : wf_cert) (lab : list byte -> list
   map (fun ch => decoded (parse_entry (ck_mask bytes) ch) (fst (fst (lab ch))) (snd (fst (lab ch))) (snd (lab ch)))
       (raw_entries_of bytes (wc_dir_ids c)).
 
-Theorem wf_open_ok : forall bytes c (lab : list byte -> list N * objtype * color),
+Theorem wf_open_given_entries : forall bytes c (lab : list byte -> list N * objtype * color),
   wf_check bytes = 0 -> wf_cert_ok bytes c -> SizeOk bytes ->
   (forall ch, In ch (raw_entries_of bytes (wc_dir_ids c)) ->
      entry_ok (parse_entry (ck_mask bytes) ch) (fst (fst (lab ch))) (snd (fst (lab ch))) (snd (lab ch))) ->
@@ -1582,20 +1631,786 @@ Proof.
 Qed.
 
 (* permissive mode follows *)
-Corollary wf_open_ok_permissive : forall bytes c lab,
+Corollary wf_open_given_entries_permissive : forall bytes c lab,
   wf_check bytes = 0 -> wf_cert_ok bytes c -> SizeOk bytes ->
   (forall ch, In ch (raw_entries_of bytes (wc_dir_ids c)) ->
      entry_ok (parse_entry (ck_mask bytes) ch) (fst (fst (lab ch))) (snd (fst (lab ch))) (snd (lab ch))) ->
   dir_validate true (dirents_of bytes c lab) = Ok tt ->
   open_model false bytes = Ok (opened bytes c (dirents_of bytes c lab)).
 Proof.
-  intros. apply StrictProofs.strict_implies_permissive. apply wf_open_ok; assumption.
+  intros. apply StrictProofs.strict_implies_permissive. apply wf_open_given_entries; assumption.
 Qed.
 
 (* ================================================================== *)
-(* 13. why stage 4 needs more than the checker gives: six images the     *)
-(*     checker accepts and open_strict refuses (all six violate MS-CFB    *)
-(*     2.6: they are gaps of the checker, not defects of the crate)       *)
+(* 13. stage 4: the checker's tree walk, inverted                       *)
+(* ================================================================== *)
+
+(* the shape the walk has traversed: a sibling tree whose storage nodes carry the
+   sibling tree of their children *)
+Inductive ntree := NL | NN (id : N) (l r c : ntree).
+Fixpoint nids (t : ntree) : list N :=
+  match t with NL => [] | NN id l r c => id :: nids l ++ nids r ++ nids c end.
+
+Definition opt_lo (lo : option (list N)) (nm : list N) : Prop :=
+  match lo with Some l => lt_name l nm = true | None => True end.
+Definition opt_hi (hi : option (list N)) (nm : list N) : Prop :=
+  match hi with Some h => lt_name nm h = true | None => True end.
+
+Lemma NoDup_app_intro : forall A (a b : list A), NoDup a -> NoDup b ->
+  (forall x, In x a -> ~ In x b) -> NoDup (a ++ b).
+Proof.
+  intros A a b Ha Hb Hd. induction Ha as [|x t Hx Ht IH]; [exact Hb|].
+  cbn [app]. constructor.
+  - intro Hin. apply in_app_or in Hin. destruct Hin as [Hin|Hin]; [contradiction|].
+    apply (Hd x); [left; reflexivity|exact Hin].
+  - apply IH. intros y Hy. apply Hd. right. exact Hy.
+Qed.
+
+Lemma NoDup_app_inv : forall A (a b : list A), NoDup (a ++ b) ->
+  NoDup a /\ NoDup b /\ (forall x, In x a -> ~ In x b).
+Proof.
+  intros A a b. induction a as [|x t IH]; intro H.
+  - split; [constructor|]. split; [exact H|intros x []].
+  - cbn [app] in H. inversion H as [|? ? Hx Ht]; subst. destruct (IH Ht) as (Na & Nb & D).
+    split; [|split; [exact Nb|]].
+    + constructor; [|exact Na]. intro Hc. apply Hx. apply in_or_app. left. exact Hc.
+    + intros y [<-|Hy]; [|exact (D y Hy)]. intro Hc. apply Hx. apply in_or_app. right. exact Hc.
+Qed.
+
+Section Walks.
+Variable es : list wentry.
+
+Definition is_sto (i : N) : bool :=
+  match nthN es i with Some e => w_type e =? OBJ_TYPE_STORAGE | None => false end.
+Definition kid_of (i : N) : N :=
+  match nthN es i with Some e => w_child e | None => NO_STREAM end.
+Definition kids_of (ids : list N) : list N := map kid_of (filter is_sto ids).
+
+Lemma kids_of_app : forall a b, kids_of (a ++ b) = kids_of a ++ kids_of b.
+Proof. intros a b. unfold kids_of. rewrite filter_app, map_app. reflexivity. Qed.
+
+Inductive NT : N -> option (list N) -> option (list N) -> bool -> ntree -> Prop :=
+| NT_leaf : forall lo hi pr, NT NO_STREAM lo hi pr NL
+| NT_node : forall id lo hi pr e nm l r c,
+    id <> NO_STREAM -> id <= MAX_REGULAR_STREAM_ID -> nthN es id = Some e ->
+    (w_type e = OBJ_TYPE_STORAGE \/ w_type e = OBJ_TYPE_STREAM) ->
+    (w_color e = COLOR_RED \/ w_color e = COLOR_BLACK) ->
+    pr && (w_color e =? COLOR_RED) = false ->
+    name_ok e = Some nm -> opt_lo lo nm -> opt_hi hi nm ->
+    NT (w_left e) lo (Some nm) (w_color e =? COLOR_RED) l ->
+    NT (w_right e) (Some nm) hi (w_color e =? COLOR_RED) r ->
+    (w_type e = OBJ_TYPE_STORAGE -> NT (w_child e) None None false c) ->
+    (w_type e <> OBJ_TYPE_STORAGE -> c = NL) ->
+    NT id lo hi pr (NN id l r c).
+
+Definition KT (k : N) (t : ntree) : Prop := NT k None None false t.
+
+Lemma sib_walk_S : forall f id lo hi pr seen,
+  sib_walk (S f) es id lo hi pr seen =
+    if id =? NO_STREAM then Some ([], seen) else
+    if MAX_REGULAR_STREAM_ID <? id then None else
+    if memN id seen then None else
+    match nthN es id with
+    | None => None
+    | Some e =>
+      if negb ((w_type e =? OBJ_TYPE_STORAGE) || (w_type e =? OBJ_TYPE_STREAM)) then None else
+      if negb ((w_color e =? COLOR_RED) || (w_color e =? COLOR_BLACK)) then None else
+      let red := w_color e =? COLOR_RED in
+      if pr && red then None else
+      match name_ok e with
+      | None => None
+      | Some nm =>
+        if negb (match lo with Some l => lt_name l nm | None => true end) then None else
+        if negb (match hi with Some h => lt_name nm h | None => true end) then None else
+        match sib_walk f es (w_left e) lo (Some nm) red (id :: seen) with
+        | None => None
+        | Some (lids, seen1) =>
+          match sib_walk f es (w_right e) (Some nm) hi red seen1 with
+          | None => None
+          | Some (rids, seen2) => Some (lids ++ id :: rids, seen2)
+          end
+        end
+      end
+    end.
+Proof. reflexivity. Qed.
+
+(* the ids a sibling walk returns are new, distinct, and exactly what it adds to [seen];
+   given the trees below its storages' children, the walked sibling tree can be completed *)
+Lemma sib_walk_inv : forall f id lo hi pr seen ids seen1,
+  sib_walk f es id lo hi pr seen = Some (ids, seen1) ->
+  NoDup ids /\ (forall x, In x ids -> ~ In x seen) /\
+  (forall x, In x seen1 <-> In x ids \/ In x seen) /\
+  forall ts, Forall2 KT (kids_of ids) ts ->
+    exists t, NT id lo hi pr t /\
+      (forall x, In x (nids t) <-> In x ids \/ In x (concat (map nids ts))) /\
+      length (nids t) = (length ids + length (concat (map nids ts)))%nat.
+Proof.
+  induction f as [|f IH]; intros id lo hi pr seen ids seen1 H; [discriminate|].
+  rewrite sib_walk_S in H.
+  destruct (N.eqb_spec id NO_STREAM) as [En|En].
+  { injection H as <- <-. split; [constructor|]. split; [intros x []|]. split; [intro x; cbn [In]; tauto|].
+    intros ts Hts. inversion Hts; subst. exists NL. split; [constructor|].
+    split; [intro x; cbn; tauto|reflexivity]. }
+  destruct (N.ltb_spec MAX_REGULAR_STREAM_ID id) as [Hm|Hm]; [discriminate|].
+  destruct (memN id seen) eqn:Em; [discriminate|]. apply WalkProofs.memN_false in Em.
+  destruct (nthN es id) as [e|] eqn:Ee; [|discriminate].
+  destruct ((w_type e =? OBJ_TYPE_STORAGE) || (w_type e =? OBJ_TYPE_STREAM)) eqn:Ety; cbn [negb] in H; [|discriminate].
+  destruct ((w_color e =? COLOR_RED) || (w_color e =? COLOR_BLACK)) eqn:Ecol; cbn [negb] in H; [|discriminate].
+  cbv zeta in H.
+  destruct (pr && (w_color e =? COLOR_RED)) eqn:Err; [discriminate|].
+  destruct (name_ok e) as [nm|] eqn:Enm; [|discriminate].
+  destruct (match lo with Some l => lt_name l nm | None => true end) eqn:Elo; cbn [negb] in H; [|discriminate].
+  destruct (match hi with Some h => lt_name nm h | None => true end) eqn:Ehi; cbn [negb] in H; [|discriminate].
+  destruct (sib_walk f es (w_left e) lo (Some nm) (w_color e =? COLOR_RED) (id :: seen)) as [[lids s1]|] eqn:EL; [|discriminate].
+  destruct (sib_walk f es (w_right e) (Some nm) hi (w_color e =? COLOR_RED) s1) as [[rids s2]|] eqn:ER; [|discriminate].
+  injection H as <- <-.
+  destruct (IH _ _ _ _ _ _ _ EL) as (NDl & Dl & Sl & Gl).
+  destruct (IH _ _ _ _ _ _ _ ER) as (NDr & Dr & Sr & Gr).
+  assert (Hidl : ~ In id lids) by (intro Hc; apply (Dl id Hc); left; reflexivity).
+  assert (Hidr : ~ In id rids) by (intro Hc; apply (Dr id Hc); apply Sl; right; left; reflexivity).
+  assert (Hlr : forall x, In x lids -> ~ In x rids)
+    by (intros x Hx Hc; apply (Dr x Hc); apply Sl; left; exact Hx).
+  split; [|split; [|split]].
+  - apply NoDup_app_intro; [exact NDl| |].
+    + constructor; assumption.
+    + intros x Hx [<-|Hc]; [contradiction|exact (Hlr x Hx Hc)].
+  - intros x Hx Hc. apply in_app_or in Hx. destruct Hx as [Hx|[<-|Hx]].
+    + apply (Dl x Hx). right. exact Hc.
+    + contradiction.
+    + apply (Dr x Hx). apply Sl. right. right. exact Hc.
+  - intro x. rewrite Sr, Sl, in_app_iff. cbn [In]. tauto.
+  - intros ts Hts. rewrite kids_of_app in Hts.
+    change (id :: rids) with ([id] ++ rids) in Hts. rewrite kids_of_app in Hts.
+    apply Forall2_app_inv_l in Hts. destruct Hts as (tl & ts' & Htl & Hts' & ->).
+    apply Forall2_app_inv_l in Hts'. destruct Hts' as (tm & tr & Htm & Htr & ->).
+    destruct (Gl tl Htl) as (l & NTl & Il & Ll).
+    destruct (Gr tr Htr) as (r & NTr & Ir & Lr).
+    assert (Hc : exists c, (w_type e = OBJ_TYPE_STORAGE -> NT (w_child e) None None false c) /\
+                           (w_type e <> OBJ_TYPE_STORAGE -> c = NL) /\
+                           concat (map nids tm) = nids c).
+    { unfold kids_of in Htm. cbn [filter] in Htm. unfold is_sto at 1 in Htm. rewrite Ee in Htm.
+      destruct (N.eqb_spec (w_type e) OBJ_TYPE_STORAGE) as [Es|Es].
+      - cbn [map] in Htm. inversion Htm as [|k c ? ? Hk Hnil]; subst. inversion Hnil; subst.
+        unfold kid_of in Hk. rewrite Ee in Hk. exists c. split; [intros _; exact Hk|].
+        split; [intro Hc; contradiction|]. cbn [map concat]. apply app_nil_r.
+      - cbn [map] in Htm. inversion Htm; subst. exists NL. split; [intro Hc; contradiction|].
+        split; reflexivity. }
+    destruct Hc as (c & Hc1 & Hc2 & Hc3).
+    exists (NN id l r c). split; [|split].
+    + eapply NT_node; eauto; try lia.
+      * destruct lo; [exact Elo|exact I].
+      * destruct hi; [exact Ehi|exact I].
+    + intro x. cbn [nids In]. rewrite !map_app, !concat_app, !in_app_iff, Il, Ir, Hc3. cbn [In]. tauto.
+    + cbn [nids length]. rewrite !map_app, !concat_app, !app_length, Ll, Lr, Hc3. cbn [length]. lia.
+Qed.
+
+Lemma tree_walk_S : forall f work seen,
+  tree_walk (S f) es work seen =
+    match work with
+    | [] => Some seen
+    | child :: rest =>
+      match sib_walk (S (length es)) es child None None false seen with
+      | None => None
+      | Some (ids, seen1) => tree_walk f es (kids_of ids ++ rest) seen1
+      end
+    end.
+Proof. reflexivity. Qed.
+
+Lemma tree_walk_inv : forall f work seen reach,
+  tree_walk f es work seen = Some reach ->
+  exists ts, Forall2 KT work ts /\ NoDup (concat (map nids ts)) /\
+    (forall x, In x (concat (map nids ts)) -> ~ In x seen) /\
+    (forall x, In x reach <-> In x (concat (map nids ts)) \/ In x seen).
+Proof.
+  induction f as [|f IH]; intros work seen reach H; [discriminate|].
+  rewrite tree_walk_S in H. destruct work as [|child rest].
+  { injection H as <-. exists []. split; [constructor|]. split; [constructor|].
+    split; [intros x []|]. intro x. cbn. tauto. }
+  destruct (sib_walk (S (length es)) es child None None false seen) as [[ids seen1]|] eqn:ES; [|discriminate].
+  destruct (sib_walk_inv _ _ _ _ _ _ _ _ ES) as (NDi & Di & Si & G).
+  destruct (IH _ _ _ H) as (ts' & Hts' & NDt & Dt & Rt).
+  apply Forall2_app_inv_l in Hts'. destruct Hts' as (tk & tr & Htk & Htr & ->).
+  destruct (G tk Htk) as (t & HNT & It & Lt).
+  rewrite map_app, concat_app in NDt, Dt, Rt.
+  exists (t :: tr). split; [constructor; [exact HNT|exact Htr]|].
+  cbn [map concat].
+  assert (Hdis : forall x, In x ids -> ~ In x (concat (map nids tk) ++ concat (map nids tr))).
+  { intros x Hx Hc. apply (Dt x Hc). apply Si. left. exact Hx. }
+  split; [|split].
+  - apply (NoDup_incl_NoDup (l := ids ++ concat (map nids tk) ++ concat (map nids tr))).
+    + apply NoDup_app_intro; assumption.
+    + rewrite !app_length, Lt. rewrite ?app_length. lia.
+    + intros x Hx. rewrite !in_app_iff in Hx. rewrite in_app_iff, It. tauto.
+  - intros x Hx Hc. rewrite in_app_iff, It in Hx. destruct Hx as [[Hx|Hx]|Hx].
+    + exact (Di x Hx Hc).
+    + apply (Dt x); [apply in_or_app; left; exact Hx|apply Si; right; exact Hc].
+    + apply (Dt x); [apply in_or_app; right; exact Hx|apply Si; right; exact Hc].
+  - intro x. rewrite Rt, Si, !in_app_iff, It. tauto.
+Qed.
+
+(* per-node consequences *)
+Lemma NT_link : forall id lo hi pr t, NT id lo hi pr t -> CodecProofs.link_ok id.
+Proof. intros id lo hi pr t H. inversion H; subst; [left; reflexivity|right; assumption]. Qed.
+
+Lemma NT_nodes : forall t id lo hi pr, NT id lo hi pr t ->
+  forall x, In x (nids t) -> exists e nm, nthN es x = Some e /\
+    (w_type e = OBJ_TYPE_STORAGE \/ w_type e = OBJ_TYPE_STREAM) /\
+    (w_color e = COLOR_RED \/ w_color e = COLOR_BLACK) /\
+    name_ok e = Some nm /\ CodecProofs.link_ok (w_left e) /\ CodecProofs.link_ok (w_right e) /\
+    (w_type e = OBJ_TYPE_STORAGE -> CodecProofs.link_ok (w_child e)).
+Proof.
+  induction t as [|i l IHl r IHr c IHc]; intros id lo hi pr H x Hx; [destruct Hx|].
+  inversion H as [|? ? ? ? e nm ? ? ? Hn Hm He Hty Hcol Hrr Hnm Hlo Hhi HL HR HC HC']; subst.
+  cbn [nids In] in Hx. rewrite !in_app_iff in Hx. destruct Hx as [<-|[Hx|[Hx|Hx]]].
+  - exists e, nm. repeat split; try assumption.
+    + eapply NT_link; exact HL.
+    + eapply NT_link; exact HR.
+    + intro Hs. eapply NT_link; exact (HC Hs).
+  - eapply IHl; eauto.
+  - eapply IHr; eauto.
+  - destruct (N.eq_dec (w_type e) OBJ_TYPE_STORAGE) as [Es|Es].
+    + eapply IHc; [exact (HC Es)|exact Hx].
+    + rewrite (HC' Es) in Hx. destruct Hx.
+Qed.
+End Walks.
+
+(* ================================================================== *)
+(* 14. stage 4: Directory::validate on the decoded table                *)
+(* ================================================================== *)
+
+Lemma name_ok_facts : forall e nm, name_ok e = Some nm ->
+  2 <= w_namelen e /\ w_namelen e <= 64 /\ w_namelen e mod 2 = 0 /\
+  u16_at (w_raw e) (w_namelen e - 2) = 0 /\
+  scalars (w_name e) = Some nm /\ existsb (fun f => memN f nm) FORBIDDEN_CHARS = false.
+Proof.
+  intros e nm H. unfold name_ok in H.
+  destruct ((2 <=? w_namelen e) && (w_namelen e <=? 64) && (w_namelen e mod 2 =? 0)) eqn:E1; cbn [negb] in H; [|discriminate].
+  destruct (u16_at (w_raw e) (w_namelen e - 2) =? 0) eqn:E2; cbn [negb] in H; [|discriminate].
+  destruct (all_zero (takeN (64 - w_namelen e) (dropN (w_namelen e) (w_raw e)))); cbn [negb] in H; [|discriminate].
+  destruct (scalars (w_name e)) as [n|] eqn:E3; [|discriminate].
+  destruct (existsb (fun f => memN f n) FORBIDDEN_CHARS) eqn:E4; [discriminate|]. injection H as <-.
+  repeat split; try lia; assumption.
+Qed.
+
+Definition lab_name (e : wentry) : list N := match scalars (w_name e) with Some n => n | None => [] end.
+Definition lab_type (e : wentry) : objtype :=
+  match objtype_of_byte (w_type e) with Some t => t | None => TUnalloc end.
+Definition lab_color (e : wentry) : color :=
+  match color_of_byte (w_color e) with Some c => c | None => Red end.
+Definition dec (e : wentry) : dirent := decoded e (lab_name e) (lab_type e) (lab_color e).
+
+Lemma lab_name_ok : forall e nm, name_ok e = Some nm -> lab_name e = nm.
+Proof.
+  intros e nm H. destruct (name_ok_facts e nm H) as (_ & _ & _ & _ & Hs & _).
+  unfold lab_name. rewrite Hs. reflexivity.
+Qed.
+
+Lemma lab_type_node : forall e, w_type e = OBJ_TYPE_STORAGE \/ w_type e = OBJ_TYPE_STREAM ->
+  (lab_type e = TStorage /\ w_type e = OBJ_TYPE_STORAGE) \/ (lab_type e = TStream /\ w_type e = OBJ_TYPE_STREAM).
+Proof. intros e [H|H]; [left|right]; unfold lab_type; rewrite H; split; reflexivity. Qed.
+
+Lemma lab_color_red : forall e, w_color e = COLOR_RED \/ w_color e = COLOR_BLACK ->
+  color_eqb (lab_color e) Red = (w_color e =? COLOR_RED).
+Proof. intros e [H|H]; unfold lab_color; rewrite H; reflexivity. Qed.
+
+Definition push (id : N) (pr : bool) (st : list (N * bool)) : list (N * bool) :=
+  if id =? NO_STREAM then st else (id, pr) :: st.
+
+Lemma lt_name_cmp : forall a b, lt_name a b = true -> cmp_names a b = Lt.
+Proof. intros a b H. unfold lt_name in H. destruct (cmp_names a b); try discriminate; reflexivity. Qed.
+
+Section Dfs.
+Variable es : list wentry.
+Let ds := map dec es.
+
+Lemma ds_nth : forall i e, nthN es i = Some e -> nthN ds i = Some (dec e).
+Proof. intros i e H. unfold ds. rewrite nthN_map, H. reflexivity. Qed.
+
+Lemma ds_len : lenN ds = lenN es.
+Proof. unfold ds. apply lenN_map. Qed.
+
+Lemma link_l : forall k lo nm pr' t (st : list (N * bool)), NT es k lo (Some nm) pr' t ->
+  (if k =? NO_STREAM then Ok st else
+   if lenN ds <=? k then Err EInvalidData else
+   rbind (dir_entry_of ds k) (fun le =>
+     match cmp_names (d_name le) nm with Lt => Ok ((k, pr') :: st) | _ => Err EInvalidData end))
+  = Ok (push k pr' st).
+Proof.
+  intros k lo nm pr' t st H. unfold push.
+  inversion H as [|? ? ? ? e nm0 ? ? ? Hn Hm He Hty Hcol Hrr Hnm Hlo Hhi HL HR HC HC']; subst.
+  - rewrite N.eqb_refl. reflexivity.
+  - replace (k =? NO_STREAM) with false by lia.
+    pose proof (WalkProofs.nthN_Some_lt _ _ _ He) as Hlt. rewrite <- ds_len in Hlt.
+    replace (lenN ds <=? k) with false by lia.
+    unfold dir_entry_of. rewrite (ds_nth _ _ He). cbn [rbind].
+    change (d_name (dec e)) with (lab_name e). rewrite (lab_name_ok _ _ Hnm).
+    cbn [opt_hi] in Hhi. rewrite (lt_name_cmp _ _ Hhi). reflexivity.
+Qed.
+
+Lemma link_r : forall k nm hi pr' t (st : list (N * bool)), NT es k (Some nm) hi pr' t ->
+  (if k =? NO_STREAM then Ok st else
+   if lenN ds <=? k then Err EInvalidData else
+   rbind (dir_entry_of ds k) (fun re =>
+     match cmp_names nm (d_name re) with Lt => Ok ((k, pr') :: st) | _ => Err EInvalidData end))
+  = Ok (push k pr' st).
+Proof.
+  intros k nm hi pr' t st H. unfold push.
+  inversion H as [|? ? ? ? e nm0 ? ? ? Hn Hm He Hty Hcol Hrr Hnm Hlo Hhi HL HR HC HC']; subst.
+  - rewrite N.eqb_refl. reflexivity.
+  - replace (k =? NO_STREAM) with false by lia.
+    pose proof (WalkProofs.nthN_Some_lt _ _ _ He) as Hlt. rewrite <- ds_len in Hlt.
+    replace (lenN ds <=? k) with false by lia.
+    unfold dir_entry_of. rewrite (ds_nth _ _ He). cbn [rbind].
+    change (d_name (dec e)) with (lab_name e). rewrite (lab_name_ok _ _ Hnm).
+    cbn [opt_lo] in Hlo. rewrite (lt_name_cmp _ _ Hlo). reflexivity.
+Qed.
+
+Lemma link_c : forall k t (st : list (N * bool)), KT es k t ->
+  (if k =? NO_STREAM then Ok st else
+   if lenN ds <=? k then Err EInvalidData else Ok ((k, false) :: st)) = Ok (push k false st).
+Proof.
+  intros k t st H. unfold push.
+  inversion H as [|? ? ? ? e nm0 ? ? ? Hn Hm He Hty Hcol Hrr Hnm Hlo Hhi HL HR HC HC']; subst.
+  - rewrite N.eqb_refl. reflexivity.
+  - replace (k =? NO_STREAM) with false by lia.
+    pose proof (WalkProofs.nthN_Some_lt _ _ _ He) as Hlt. rewrite <- ds_len in Hlt.
+    replace (lenN ds <=? k) with false by lia. reflexivity.
+Qed.
+
+Lemma dir_dfs_S : forall f strict (dl : list dirent) id parent_red rest visited,
+  dir_dfs (S f) strict dl ((id, parent_red) :: rest) visited =
+      if memN id visited then Err EInvalidData else
+      rbind (dir_entry_of dl id) (fun e =>
+      if (if id =? ROOT_STREAM_ID then negb (objtype_eqb (d_type e) TRoot)
+          else negb (objtype_eqb (d_type e) TStorage) && negb (objtype_eqb (d_type e) TStream))
+      then Err EInvalidData else
+      let red := color_eqb (d_color e) Red in
+      if parent_red && red && strict then Err EInvalidData else
+      let n := lenN dl in
+      rbind (if d_left e =? NO_STREAM then Ok rest else
+             if n <=? d_left e then Err EInvalidData else
+             rbind (dir_entry_of dl (d_left e)) (fun le =>
+             match cmp_names (d_name le) (d_name e) with
+             | Lt => Ok ((d_left e, red) :: rest)
+             | _ => Err EInvalidData
+             end)) (fun st1 =>
+      rbind (if d_right e =? NO_STREAM then Ok st1 else
+             if n <=? d_right e then Err EInvalidData else
+             rbind (dir_entry_of dl (d_right e)) (fun re =>
+             match cmp_names (d_name e) (d_name re) with
+             | Lt => Ok ((d_right e, red) :: st1)
+             | _ => Err EInvalidData
+             end)) (fun st2 =>
+      rbind (if d_child e =? NO_STREAM then Ok st2 else
+             if n <=? d_child e then Err EInvalidData else Ok ((d_child e, false) :: st2)) (fun st3 =>
+      dir_dfs f strict dl st3 (id :: visited))))).
+Proof. reflexivity. Qed.
+
+(* one step of the search on a node the checker has walked *)
+Lemma dfs_node_step : forall f id pr rest V e nm lo hi l r c,
+  nthN es id = Some e -> id <> ROOT_STREAM_ID -> ~ In id V ->
+  (w_type e = OBJ_TYPE_STORAGE \/ w_type e = OBJ_TYPE_STREAM) ->
+  (w_color e = COLOR_RED \/ w_color e = COLOR_BLACK) ->
+  pr && (w_color e =? COLOR_RED) = false -> name_ok e = Some nm ->
+  NT es (w_left e) lo (Some nm) (w_color e =? COLOR_RED) l ->
+  NT es (w_right e) (Some nm) hi (w_color e =? COLOR_RED) r ->
+  KT es (w_child e) c ->
+  dir_dfs (S f) true ds ((id, pr) :: rest) V =
+  dir_dfs f true ds (push (w_child e) false (push (w_right e) (w_color e =? COLOR_RED)
+                      (push (w_left e) (w_color e =? COLOR_RED) rest))) (id :: V).
+Proof.
+  intros f id pr rest V e nm lo hi l r c He Hid HV Hty Hcol Hrr Hnm HL HR HC.
+  rewrite dir_dfs_S. apply WalkProofs.memN_false in HV. rewrite HV.
+  unfold dir_entry_of at 1. rewrite (ds_nth _ _ He). cbn [rbind].
+  replace (id =? ROOT_STREAM_ID) with false by lia.
+  change (d_type (dec e)) with (lab_type e). change (d_color (dec e)) with (lab_color e).
+  change (d_left (dec e)) with (w_left e). change (d_right (dec e)) with (w_right e).
+  change (d_child (dec e)) with (w_child e). change (d_name (dec e)) with (lab_name e).
+  rewrite (lab_name_ok _ _ Hnm), (lab_color_red _ Hcol).
+  assert (Hty' : negb (objtype_eqb (lab_type e) TStorage) && negb (objtype_eqb (lab_type e) TStream) = false).
+  { destruct (lab_type_node e Hty) as [[-> _]|[-> _]]; reflexivity. }
+  rewrite Hty'. cbv zeta. rewrite Hrr. cbn [andb].
+  rewrite (link_l _ _ _ _ _ rest HL). cbn [rbind].
+  rewrite (link_r _ _ _ _ _ _ HR). cbn [rbind].
+  rewrite (link_c _ _ _ HC). cbn [rbind]. reflexivity.
+Qed.
+
+Lemma dfs_sub : forall t id lo hi pr, NT es id lo hi pr t ->
+  (forall x e, In x (nids t) -> nthN es x = Some e -> w_type e = OBJ_TYPE_STREAM -> w_child e = NO_STREAM) ->
+  NoDup (nids t) ->
+  forall f rest V, (forall x, In x (nids t) -> ~ In x V /\ x <> ROOT_STREAM_ID) ->
+  exists V', (forall x, In x V' <-> In x (nids t) \/ In x V) /\
+    dir_dfs (length (nids t) + f) true ds (push id pr rest) V = dir_dfs f true ds rest V'.
+Proof.
+  induction t as [|i l IHl r IHr c IHc]; intros id lo hi pr H Hst ND f rest V HV.
+  { inversion H; subst. exists V. split; [intro x; cbn; tauto|]. unfold push. rewrite N.eqb_refl. reflexivity. }
+  inversion H as [|? ? ? ? e nm ? ? ? Hn Hm He Hty Hcol Hrr Hnm Hlo Hhi HL HR HC HC']; subst.
+  cbn [nids] in ND, HV. inversion ND as [|? ? Hni ND']; subst.
+  destruct (NoDup_app_inv _ _ _ ND') as (NDl & NDrc & Hlr).
+  destruct (NoDup_app_inv _ _ _ NDrc) as (NDr & NDc & Hrc).
+  assert (HKc : KT es (w_child e) c /\ (w_type e = OBJ_TYPE_STREAM -> w_child e = NO_STREAM)).
+  { split.
+    - destruct (N.eq_dec (w_type e) OBJ_TYPE_STORAGE) as [Es|Es]; [exact (HC Es)|].
+      rewrite (HC' Es). assert (Ht : w_type e = OBJ_TYPE_STREAM) by (destruct Hty; [contradiction|assumption]).
+      rewrite (Hst i e (or_introl eq_refl) He Ht). constructor.
+    - intro Ht. exact (Hst i e (or_introl eq_refl) He Ht). }
+  destruct HKc as [HKc _].
+  unfold push at 1. replace (i =? NO_STREAM) with false by lia.
+  destruct (HV i (or_introl eq_refl)) as [HiV Hi0].
+  assert (HVa : forall x, In x (i :: nids l ++ nids r ++ nids c) -> ~ In x V) by (intros x Hx; apply (HV x Hx)).
+  assert (HVb : forall x, In x (i :: nids l ++ nids r ++ nids c) -> x <> ROOT_STREAM_ID) by (intros x Hx; apply (HV x Hx)).
+  cbn [nids length]. cbn [plus].
+  rewrite (dfs_node_step _ _ _ _ _ _ _ _ _ _ _ _ He Hi0 HiV Hty Hcol Hrr Hnm HL HR HKc).
+  replace (length (nids l ++ nids r ++ nids c) + f)%nat
+    with (length (nids c) + (length (nids r) + (length (nids l) + f)))%nat by (rewrite !app_length; lia).
+  destruct (IHc _ _ _ _ HKc) with (f := (length (nids r) + (length (nids l) + f))%nat)
+      (rest := push (w_right e) (w_color e =? COLOR_RED) (push (w_left e) (w_color e =? COLOR_RED) rest))
+      (V := i :: V) as (V1 & HV1 & E1).
+  { intros x e0 Hx. apply Hst. right. apply in_or_app. right. apply in_or_app. right. exact Hx. }
+  { exact NDc. }
+  { intros x Hx. split.
+    - intros [<-|Hc].
+      + apply Hni. apply in_or_app. right. apply in_or_app. right. exact Hx.
+      + apply (HVa x); [right; apply in_or_app; right; apply in_or_app; right; exact Hx|exact Hc].
+    - apply (HVb x). right. apply in_or_app. right. apply in_or_app. right. exact Hx. }
+  rewrite E1.
+  destruct (IHr _ _ _ _ HR) with (f := (length (nids l) + f)%nat)
+      (rest := push (w_left e) (w_color e =? COLOR_RED) rest) (V := V1) as (V2 & HV2 & E2).
+  { intros x e0 Hx. apply Hst. right. apply in_or_app. right. apply in_or_app. left. exact Hx. }
+  { exact NDr. }
+  { intros x Hx. split.
+    - intro Hc. apply HV1 in Hc. destruct Hc as [Hc|[<-|Hc]].
+      + exact (Hrc x Hx Hc).
+      + apply Hni. apply in_or_app. right. apply in_or_app. left. exact Hx.
+      + apply (HVa x); [right; apply in_or_app; right; apply in_or_app; left; exact Hx|exact Hc].
+    - apply (HVb x). right. apply in_or_app. right. apply in_or_app. left. exact Hx. }
+  rewrite E2.
+  destruct (IHl _ _ _ _ HL) with (f := f) (rest := rest) (V := V2) as (V3 & HV3 & E3).
+  { intros x e0 Hx. apply Hst. right. apply in_or_app. left. exact Hx. }
+  { exact NDl. }
+  { intros x Hx. split.
+    - intro Hc. apply HV2 in Hc. destruct Hc as [Hc|Hc]; [apply (Hlr x Hx); apply in_or_app; left; exact Hc|].
+      apply HV1 in Hc. destruct Hc as [Hc|[<-|Hc]].
+      + apply (Hlr x Hx). apply in_or_app. right. exact Hc.
+      + apply Hni. apply in_or_app. left. exact Hx.
+      + apply (HVa x); [right; apply in_or_app; left; exact Hx|exact Hc].
+    - apply (HVb x). right. apply in_or_app. left. exact Hx. }
+  rewrite E3. exists V3. split; [|reflexivity].
+  intro x. rewrite HV3, HV2, HV1. cbn [In]. rewrite !in_app_iff. tauto.
+Qed.
+End Dfs.
+
+Lemma dir_dfs_nil : forall f strict dl V, dir_dfs (S f) strict dl [] V = Ok tt.
+Proof. reflexivity. Qed.
+
+(* Directory::validate accepts the decoded table *)
+Theorem wf_dir_validate_ok : forall es root rest reach,
+  es = root :: rest -> tree_facts es root reach -> w_len root mod MINI_SECTOR_LEN = 0 ->
+  dir_validate true (map dec es) = Ok tt.
+Proof.
+  intros es root rest reach Hes TF H64.
+  destruct (tree_walk_inv es _ _ _ _ (tf_walk _ _ _ TF)) as (ts & Hts & ND & Dis & Hreach).
+  inversion Hts as [|k t ? ts0 HK Hnil]; subst ts. inversion Hnil; subst. clear Hts Hnil.
+  cbn [map concat] in ND, Dis, Hreach. rewrite app_nil_r in ND, Dis, Hreach.
+  assert (Hroot0 : nthN (root :: rest) ROOT_STREAM_ID = Some root) by reflexivity.
+  assert (Hrt : lab_type root = TRoot) by (unfold lab_type; rewrite (tf_root_type _ _ _ TF); reflexivity).
+  unfold dir_validate. cbn [map].
+  change (d_len (dec root)) with (if objtype_eqb (lab_type root) TStorage then 0 else w_len root).
+  rewrite Hrt. cbn [objtype_eqb]. rewrite H64. cbn [N.eqb negb].
+  change (dec root :: map dec rest) with (map dec (root :: rest)).
+  rewrite dir_dfs_S. cbn [memN].
+  unfold dir_entry_of at 1. rewrite (ds_nth _ _ _ Hroot0). cbn [rbind].
+  change (ROOT_STREAM_ID =? ROOT_STREAM_ID) with true. cbv iota.
+  change (d_type (dec root)) with (lab_type root). rewrite Hrt. cbn [objtype_eqb negb andb]. cbv zeta.
+  change (d_left (dec root)) with (w_left root). change (d_right (dec root)) with (w_right root).
+  change (d_child (dec root)) with (w_child root).
+  rewrite (tf_root_left _ _ _ TF), (tf_root_right _ _ _ TF), N.eqb_refl. cbn [rbind].
+  rewrite (link_c _ _ _ [] HK). cbn [rbind].
+  assert (Hlen : (length (nids t) <= length (root :: rest))%nat).
+  { assert (HF : Forall (fun x => x < lenN (root :: rest)) (nids t)).
+    { apply Forall_forall. intros x Hx.
+      destruct (NT_nodes _ _ _ _ _ _ HK x Hx) as (e & nm & He & _). eapply WalkProofs.nthN_Some_lt; exact He. }
+    pose proof (WalkProofs.bounded_nodup_length _ _ ND HF) as Hb.
+    rewrite CodecProofs.lenN_length in Hb. lia. }
+  rewrite map_length.
+  replace (S (length (root :: rest))) with (length (nids t) + S (length (root :: rest) - length (nids t)))%nat by lia.
+  destruct (dfs_sub _ _ _ _ _ _ HK) with (f := S (length (root :: rest) - length (nids t)))
+      (rest := @nil (N * bool)) (V := [ROOT_STREAM_ID]) as (V' & _ & E).
+  - intros x e Hx He Hty. apply (tf_stream _ _ _ TF x e He Hty).
+    apply WalkProofs.memN_In. apply Hreach. left. exact Hx.
+  - exact ND.
+  - intros x Hx. pose proof (Dis x Hx) as Hd. split; [exact Hd|]. intro Hc. apply Hd. left. symmetry. exact Hc.
+  - rewrite E. apply dir_dfs_nil.
+Qed.
+
+(* ================================================================== *)
+(* 15. stage 4: every slot satisfies the strict decoder's conditions     *)
+(* ================================================================== *)
+
+Definition bytes_ok (bytes : list byte) : bool := forallb (fun b => b <? 256) bytes.
+
+Lemma In_takeN : forall A (l : list A) n x, In x (takeN n l) -> In x l.
+Proof.
+  intros A l n x H. destruct (In_nthN _ _ _ H) as [i Hi]. rewrite StrictProofs.nthN_takeN in Hi.
+  destruct (i <? n); [|discriminate]. eapply WalkProofs.nthN_In; exact Hi.
+Qed.
+Lemma In_dropN : forall A (l : list A) n x, In x (dropN n l) -> In x l.
+Proof.
+  intros A l n x H. destruct (In_nthN _ _ _ H) as [i Hi]. rewrite StrictProofs.nthN_dropN in Hi.
+  eapply WalkProofs.nthN_In; exact Hi.
+Qed.
+
+Lemma split_chunks_In : forall fuel sl (bs ch : list byte) x,
+  In ch (split_chunks fuel sl bs) -> In x ch -> In x bs.
+Proof.
+  induction fuel as [|f IH]; intros sl bs ch x Hch Hx; [destruct Hch|].
+  destruct bs as [|b t]; [destruct Hch|]. cbn [split_chunks] in Hch. destruct Hch as [<-|Hch].
+  - eapply In_takeN; exact Hx.
+  - eapply In_dropN. eapply IH; eauto.
+Qed.
+
+Lemma raw_entry_bytes : forall bytes ids ch x, In ch (raw_entries_of bytes ids) -> In x ch -> In x bytes.
+Proof.
+  intros bytes ids ch x Hch Hx. unfold raw_entries_of in Hch. apply in_flat_map in Hch.
+  destruct Hch as (i & _ & Hch). pose proof (split_chunks_In _ _ _ _ _ Hch Hx) as Hs.
+  unfold ck_sec in Hs. destruct (nthN (ck_secs bytes) (i + 1)) as [sc|] eqn:E; [|destruct Hs].
+  apply WalkProofs.nthN_In in E. unfold ck_secs in E. eapply split_chunks_In; eauto.
+Qed.
+
+Lemma le_val2_lt : forall (l : list byte), (forall x, In x l -> x < 256) -> lenN l <= 2 -> le_val l < 65536.
+Proof.
+  intros l H Hl. destruct l as [|a [|b [|c t]]]; cbn [le_val].
+  - lia.
+  - pose proof (H a (or_introl eq_refl)). lia.
+  - pose proof (H a (or_introl eq_refl)). pose proof (H b (or_intror (or_introl eq_refl))). lia.
+  - cbn [lenN] in Hl. lia.
+Qed.
+
+Lemma units_of_lt : forall k (bs : list byte), (forall x, In x bs -> x < 256) ->
+  Forall (fun u => u < 65536) (units_of bs k).
+Proof.
+  induction k as [|k IH]; intros bs H; [constructor|].
+  change (units_of bs (S k)) with (le_val (takeN 2 bs) :: units_of (dropN 2 bs) k).
+  constructor.
+  - apply le_val2_lt; [intros x Hx; apply H; eapply In_takeN; exact Hx|rewrite StrictProofs.lenN_takeN; lia].
+  - apply IH. intros x Hx. apply H. eapply In_dropN; exact Hx.
+Qed.
+
+Lemma lenN_units_of : forall k (bs : list byte), lenN (units_of bs k) = N.of_nat k.
+Proof.
+  induction k as [|k IH]; intro bs; [reflexivity|].
+  change (units_of bs (S k)) with (le_val (takeN 2 bs) :: units_of (dropN 2 bs) k).
+  cbn [lenN]. rewrite IH. lia.
+Qed.
+
+Lemma lenN_cons : forall A (x : A) l, lenN (x :: l) = 1 + lenN l.
+Proof. intros. cbn [lenN]. lia. Qed.
+Lemma lenN_nil : forall A, lenN (@nil A) = 0.
+Proof. reflexivity. Qed.
+
+Lemma scalars_cons : forall a t, scalars (a :: t) =
+    if (55296 <=? a) && (a <=? 56319) then
+      match t with
+      | b :: t' =>
+        if (56320 <=? b) && (b <=? 57343) then
+          match scalars t' with
+          | Some r => Some ((65536 + (a - 55296) * 1024 + (b - 56320)) :: r)
+          | None => None
+          end
+        else None
+      | [] => None
+      end
+    else if (56320 <=? a) && (a <=? 57343) then None
+    else match scalars t with Some r => Some (a :: r) | None => None end.
+Proof. reflexivity. Qed.
+
+Lemma utf16_cons : forall c r, utf16 (c :: r) = utf16_char c ++ utf16 r.
+Proof. reflexivity. Qed.
+
+Lemma utf16_len_scalars : forall n u nm, (length u <= n)%nat -> Forall (fun x => x < 65536) u ->
+  scalars u = Some nm -> lenN (utf16 nm) = lenN u.
+Proof.
+  induction n as [|n IH]; intros u nm Hn HF H.
+  { destruct u; [|cbn [length] in Hn; lia]. injection H as <-. reflexivity. }
+  destruct u as [|a t]; [injection H as <-; reflexivity|].
+  rewrite scalars_cons in H. inversion HF as [|? ? Ha Ht]; subst.
+  destruct ((55296 <=? a) && (a <=? 56319)) eqn:Eh.
+  - destruct t as [|b t']; [discriminate|].
+    destruct ((56320 <=? b) && (b <=? 57343)) eqn:El; [|discriminate].
+    destruct (scalars t') as [r|] eqn:Er; [|discriminate].
+    assert (Hc : exists c, 65536 <= c /\ Some (c :: r) = Some nm) by (eexists; split; [|exact H]; lia).
+    clear H. destruct Hc as (c & Hc & H). injection H as <-.
+    inversion Ht; subst.
+    rewrite utf16_cons, CodecProofs.lenN_app.
+    rewrite (IH t' r); [|cbn [length] in Hn; lia|assumption|exact Er].
+    unfold utf16_char. replace (c <? 65536) with false by lia.
+    cbv zeta. rewrite !lenN_cons, ?lenN_nil. lia.
+  - destruct ((56320 <=? a) && (a <=? 57343)); [discriminate|].
+    destruct (scalars t) as [r|] eqn:Er; [|discriminate]. injection H as <-.
+    rewrite utf16_cons, CodecProofs.lenN_app.
+    rewrite (IH t r); [|cbn [length] in Hn; lia|assumption|exact Er].
+    unfold utf16_char. replace (a <? 65536) with true by lia. rewrite !lenN_cons, ?lenN_nil. lia.
+Qed.
+
+Lemma name_ok_entry : forall m ch nm, (forall x, In x ch -> x < 256) ->
+  name_ok (parse_entry m ch) = Some nm ->
+  w_namelen (parse_entry m ch) <= 64 /\ w_namelen (parse_entry m ch) mod 2 = 0 /\
+  u16_at (w_raw (parse_entry m ch)) (2 * nlc (parse_entry m ch)) = 0 /\
+  scalars (w_name (parse_entry m ch)) = Some nm /\
+  lenN (utf16 nm) <= MAX_NAME_LEN /\ existsb (fun f => memN f nm) FORBIDDEN_CHARS = false.
+Proof.
+  intros m ch nm Hb H. set (e := parse_entry m ch) in *.
+  destruct (name_ok_facts e nm H) as (H2 & H64 & Hev & Hterm & Hsc & Hforb).
+  assert (Hnlc : 2 * nlc e = w_namelen e - 2).
+  { unfold nlc. replace (0 <? w_namelen e) with true by lia. lia. }
+  split; [exact H64|]. split; [exact Hev|]. split; [rewrite Hnlc; exact Hterm|]. split; [exact Hsc|].
+  split; [|exact Hforb].
+  rewrite (utf16_len_scalars (length (w_name e)) (w_name e) nm (le_n _)); [| |exact Hsc].
+  - change (w_name e) with (units_of ch (N.to_nat (if (2 <=? u16_at ch 64) && (u16_at ch 64 <=? 64)
+                                                    then u16_at ch 64 / 2 - 1 else 0))).
+    rewrite lenN_units_of, N2Nat.id. change (u16_at ch 64) with (w_namelen e).
+    unfold MAX_NAME_LEN. destruct ((2 <=? w_namelen e) && (w_namelen e <=? 64)); lia.
+  - apply units_of_lt. exact Hb.
+Qed.
+
+Section Entries.
+Variable bytes : list byte.
+Variable c : wf_cert.
+Hypothesis Hok : wf_cert_ok bytes c.
+Hypothesis Hbytes : bytes_ok bytes = true.
+
+Lemma bytes_lt : forall x, In x bytes -> x < 256.
+Proof. intros x Hx. unfold bytes_ok in Hbytes. rewrite forallb_forall in Hbytes. specialize (Hbytes x Hx). lia. Qed.
+
+Theorem wf_entries_ok : forall ch, In ch (raw_entries_of bytes (wc_dir_ids c)) ->
+  entry_ok (parse_entry (ck_mask bytes) ch) (lab_name (parse_entry (ck_mask bytes) ch))
+           (lab_type (parse_entry (ck_mask bytes) ch)) (lab_color (parse_entry (ck_mask bytes) ch)).
+Proof.
+  intros ch Hch. set (e := parse_entry (ck_mask bytes) ch).
+  pose proof (co_tree _ _ Hok) as TF. pose proof (co_es _ _ Hok) as Hes.
+  assert (Hchb : forall x, In x ch -> x < 256)
+    by (intros x Hx; apply bytes_lt; eapply raw_entry_bytes; eauto).
+  destruct (In_nthN _ _ _ Hch) as [i Hi].
+  assert (Hei : nthN (wc_es bytes c) i = Some e).
+  { unfold wc_es, es_of_ids. rewrite nthN_map, Hi. reflexivity. }
+  destruct (tree_walk_inv _ _ _ _ _ (tf_walk _ _ _ TF)) as (ts & Hts & ND & Dis & Hreach).
+  inversion Hts as [|k t ? ts0 HK Hnil]; subst ts. inversion Hnil; subst. clear Hts Hnil.
+  cbn [map concat] in ND, Dis, Hreach. rewrite app_nil_r in ND, Dis, Hreach.
+  destruct (memN i (wc_reach c)) eqn:Em.
+  - apply WalkProofs.memN_In in Em. apply Hreach in Em. destruct Em as [Hin|[<-|[]]].
+    + (* a node of the tree *)
+      destruct (NT_nodes _ _ _ _ _ _ HK i Hin) as (e' & nm & He' & Hty & Hcol & Hnm & Hl & Hr & Hc).
+      rewrite Hei in He'. injection He' as <-.
+      destruct (name_ok_entry _ _ _ Hchb Hnm) as (H64 & Hev & Hterm & Hsc & Hlen & Hforb).
+      assert (Hreachi : memN i (wc_reach c) = true) by (apply WalkProofs.memN_In; apply Hreach; left; exact Hin).
+      assert (Hln : lab_name e = nm) by (apply lab_name_ok; exact Hnm).
+      assert (Hcolv : color_of_byte (w_color e) = Some (lab_color e)).
+      { unfold lab_color. destruct Hcol as [E|E]; rewrite E; reflexivity. }
+      rewrite Hln.
+      destruct (lab_type_node e Hty) as [[Hlt Hwt]|[Hlt Hwt]]; rewrite Hlt.
+      * constructor; try assumption.
+        -- rewrite Hwt. reflexivity.
+        -- cbn [objtype_eqb]. split; assumption.
+        -- destruct (Hc Hwt) as [Hn|Hn]; [left; exact Hn|right; split; [discriminate|exact Hn]].
+        -- discriminate.
+        -- intros _. exact (tf_storage _ _ _ TF i e Hei Hwt Hreachi).
+      * destruct (tf_stream _ _ _ TF i e Hei Hwt Hreachi) as (Hz & Hct & Hmt & Hch0).
+        constructor; try assumption.
+        -- rewrite Hwt. reflexivity.
+        -- cbn [objtype_eqb]. split; assumption.
+        -- left. exact Hch0.
+        -- intros _. repeat split; assumption.
+        -- discriminate.
+    + (* the root entry *)
+      rewrite Hes in Hei. cbn [nthN N.eqb] in Hei. injection Hei as Hre.
+      destruct (tf_root_nameok _ _ _ TF) as (rn & Hrn). destruct (tf_root_name _ _ _ TF) as (n & Hsn & Hn).
+      rewrite Hre in *.
+      destruct (name_ok_entry _ _ _ Hchb Hrn) as (H64 & Hev & Hterm & Hsc & _ & _).
+      assert (Hln : lab_name e = ROOT_DIR_NAME) by (unfold lab_name; rewrite Hsn; exact Hn).
+      assert (Hlt : lab_type e = TRoot) by (unfold lab_type; rewrite (tf_root_type _ _ _ TF); reflexivity).
+      rewrite Hln, Hlt. constructor; try assumption.
+      * rewrite Hsn, Hn. reflexivity.
+      * rewrite (tf_root_type _ _ _ TF). reflexivity.
+      * reflexivity.
+      * unfold lab_color. destruct (tf_root_color _ _ _ TF) as [E|E]; rewrite E; reflexivity.
+      * left. exact (tf_root_left _ _ _ TF).
+      * left. exact (tf_root_right _ _ _ TF).
+      * destruct (NT_link _ _ _ _ _ _ HK) as [Hn0|Hn0]; [left; exact Hn0|right; split; [discriminate|exact Hn0]].
+      * discriminate.
+      * discriminate.
+    - (* an unallocated slot *)
+      pose proof (tf_blank _ _ _ TF i e Hei Em) as Hb. pose proof (tf_blank_even _ _ _ TF i e Hei Em) as Hev.
+      pose proof (blank_entry_ok _ _ Hb Hev) as Hbe. fold e in Hbe.
+      assert (Hln : lab_name e = []) by (unfold lab_name; rewrite (eo_name _ _ _ _ Hbe); reflexivity).
+      assert (Hlt : lab_type e = TUnalloc) by (unfold lab_type; rewrite (eo_type _ _ _ _ Hbe); reflexivity).
+      assert (Hlc : lab_color e = Red) by (unfold lab_color; rewrite (eo_color _ _ _ _ Hbe); reflexivity).
+      rewrite Hln, Hlt, Hlc. exact Hbe.
+Qed.
+End Entries.
+
+
+(* ================================================================== *)
+(* 16. the converse theorem                                             *)
+(* ================================================================== *)
+
+Lemma wf_size_ok : forall bytes, wf_check bytes = 0 -> SizeOk bytes.
+Proof.
+  intros bytes H. destruct (wf_inv_body bytes H) as (Hmod & Hlen & Hns & _).
+  unfold SizeOk. rewrite (len_eq bytes Hmod Hlen).
+  destruct (ck_sl_cases bytes) as [E|E]; rewrite E; lia.
+Qed.
+
+(* the labels the strict decoder computes, read off the entry the checker parses *)
+Definition ck_lab (m : N) (ch : list byte) : list N * objtype * color :=
+  (lab_name (parse_entry m ch), lab_type (parse_entry m ch), lab_color (parse_entry m ch)).
+
+(* the directory table open_strict builds *)
+Definition ck_dirents (bytes : list byte) (c : wf_cert) : list dirent :=
+  dirents_of bytes c (ck_lab (ck_mask bytes)).
+
+Lemma ck_dirents_map : forall bytes c, ck_dirents bytes c = map dec (wc_es bytes c).
+Proof. intros bytes c. unfold ck_dirents, dirents_of, wc_es, es_of_ids. rewrite map_map. reflexivity. Qed.
+
+(* main theorem, with the state identified: its tables are the checker's *)
+Theorem wf_open_cert : forall bytes c,
+  wf_check bytes = 0 -> bytes_ok bytes = true -> wf_cert_ok bytes c ->
+  open_model true bytes = Ok (opened bytes c (ck_dirents bytes c)).
+Proof.
+  intros bytes c H Hb Hok. unfold ck_dirents.
+  apply (wf_open_given_entries bytes c _ H Hok (wf_size_ok bytes H)).
+  - intros ch Hch. exact (wf_entries_ok bytes c Hok Hb ch Hch).
+  - fold (ck_dirents bytes c). rewrite ck_dirents_map.
+    eapply wf_dir_validate_ok; [exact (co_es _ _ Hok)|exact (co_tree _ _ Hok)|].
+    exact (mn_len64 _ _ _ _ _ _ _ (co_mini _ _ Hok)).
+Qed.
+
+Theorem wf_open_opened : forall bytes, wf_check bytes = 0 -> bytes_ok bytes = true ->
+  exists c, wf_cert_ok bytes c /\ open_model true bytes = Ok (opened bytes c (ck_dirents bytes c)).
+Proof.
+  intros bytes H Hb. destruct (wf_certificate bytes H) as [c Hok].
+  exists c. split; [exact Hok|exact (wf_open_cert bytes c H Hb Hok)].
+Qed.
+
+Theorem wf_open_ok : forall bytes, wf_check bytes = 0 -> bytes_ok bytes = true ->
+  exists st, open_model true bytes = Ok st.
+Proof. intros bytes H Hb. destruct (wf_open_opened bytes H Hb) as (c & _ & E). eexists. exact E. Qed.
+
+(* permissive mode follows *)
+Corollary wf_open_opened_permissive : forall bytes, wf_check bytes = 0 -> bytes_ok bytes = true ->
+  exists c, wf_cert_ok bytes c /\ open_model false bytes = Ok (opened bytes c (ck_dirents bytes c)).
+Proof.
+  intros bytes H Hb. destruct (wf_open_opened bytes H Hb) as (c & Hok & E).
+  exists c. split; [exact Hok|]. apply StrictProofs.strict_implies_permissive. exact E.
+Qed.
+
+Corollary wf_open_ok_permissive : forall bytes, wf_check bytes = 0 -> bytes_ok bytes = true ->
+  exists st, open_model false bytes = Ok st.
+Proof. intros bytes H Hb. destruct (wf_open_opened_permissive bytes H Hb) as (c & _ & E). eexists. exact E. Qed.
+
+(* ================================================================== *)
+(* 17. the six places where the 44-rule checker asked less than MS-CFB   *)
+(*     2.6 (and less than open_strict): each is now refused by the        *)
+(*     checker too, by the new rule named                                  *)
 (* ================================================================== *)
 From Cfb.proofs Require WfProofs.
 
@@ -1603,58 +2418,92 @@ Module Gaps.
   Definition img0 := concat_img (create_image V3).
   Definition img1 := concat_img (img (cs (WfProofs.run_hist V3 [OCreateStorage [WfProofs.SL; 100]]))).
   Definition patch (off : N) (b : byte) (l : list byte) : list byte := spliceN l off [b].
-  Definition refused (b : list byte) : Prop := wf_check b = 0 /\ open_model true b = Err EInvalidData.
+  Definition both_refuse (rule : N) (b : list byte) : Prop :=
+    wf_check b = rule /\ open_model true b = Err EInvalidData.
 
   (* the unpatched images are accepted by both *)
   Example base_ok : wf_check img0 = 0 /\ wf_check img1 = 0 /\
                     is_ok (open_model true img0) = true /\ is_ok (open_model true img1) = true.
   Proof. vm_compute. repeat split; reflexivity. Qed.
   (* an unallocated slot whose name-length field is 1 (blank_entry only asks for <= 2) *)
-  Example blank_odd_name_length : refused (patch (1024 + 128 + 64) 1 img0).
+  Example blank_odd_name_length : both_refuse 48 (patch (1024 + 128 + 64) 1 img0).
   Proof. vm_compute. split; reflexivity. Qed.
-  (* root entry with colour byte 7 (the colour of entry 0 is never looked at) *)
-  Example root_bad_colour : refused (patch (1024 + 67) 7 img0).
+  (* root entry with colour byte 7 *)
+  Example root_bad_colour : both_refuse 46 (patch (1024 + 67) 7 img0).
   Proof. vm_compute. split; reflexivity. Qed.
-  (* root entry whose name is not NUL-terminated (name_ok is not applied to entry 0) *)
-  Example root_unterminated_name : refused (patch (1024 + 20) 65 img0).
+  (* root entry whose name is not NUL-terminated *)
+  Example root_unterminated_name : both_refuse 47 (patch (1024 + 20) 65 img0).
   Proof. vm_compute. split; reflexivity. Qed.
   (* root entry with name-length field 23 *)
-  Example root_odd_name_length : refused (patch (1024 + 64) 23 img0).
+  Example root_odd_name_length : both_refuse 47 (patch (1024 + 64) 23 img0).
   Proof. vm_compute. split; reflexivity. Qed.
-  (* a storage entry with a non-zero start sector / a non-zero length (never checked) *)
-  Example storage_start_nonzero : refused (patch (1024 + 128 + 116) 5 img1).
+  (* a storage entry with a non-zero start sector / a non-zero length *)
+  Example storage_start_nonzero : both_refuse 49 (patch (1024 + 128 + 116) 5 img1).
   Proof. vm_compute. split; reflexivity. Qed.
-  Example storage_length_nonzero : refused (patch (1024 + 128 + 120) 1 img1).
+  Example storage_length_nonzero : both_refuse 50 (patch (1024 + 128 + 120) 1 img1).
   Proof. vm_compute. split; reflexivity. Qed.
+  (* [bytes_ok] is needed: the storage's name field is overwritten with 31 units whose
+     low "byte" is 70000; every rule of the checker passes, open_strict refuses *)
+  Definition img_wide : list byte :=
+    spliceN (spliceN img1 (1024 + 128) (concat (repeat [70000; 0] 31))) (1024 + 128 + 64) [64].
+  Example bytes_ok_needed :
+    wf_check img_wide = 0 /\ bytes_ok img_wide = false /\ is_ok (open_model true img_wide) = false.
+  Proof. vm_compute. repeat split; reflexivity. Qed.
 End Gaps.
+
+(* non-vacuity: images written by the model, with storages, mini and regular streams,
+   removals and a second directory sector, of both versions *)
+Module WfOpenExample.
+  Definition imgs (v : version) : list byte := concat_img (img (cs (WfProofs.run_hist v WfProofs.hist1))).
+  Example premises_v3 : wf_check (imgs V3) = 0 /\ bytes_ok (imgs V3) = true.
+  Proof. vm_compute. split; reflexivity. Qed.
+  Example premises_v4 : wf_check (imgs V4) = 0 /\ bytes_ok (imgs V4) = true.
+  Proof. vm_compute. split; reflexivity. Qed.
+  Example opened_by_computation : is_ok (open_model true (imgs V3)) = true /\ is_ok (open_model true (imgs V4)) = true.
+  Proof. vm_compute. split; reflexivity. Qed.
+  Theorem opened_by_theorem : forall v, exists st, open_model true (imgs v) = Ok st.
+  Proof.
+    intros [|].
+    - exact (wf_open_ok (imgs V3) (proj1 premises_v3) (proj2 premises_v3)).
+    - exact (wf_open_ok (imgs V4) (proj1 premises_v4) (proj2 premises_v4)).
+  Qed.
+  (* the directory table has storages and streams *)
+  Example has_storages_and_streams :
+    existsb (fun e => objtype_eqb (d_type e) TStorage)
+            (match open_model true (imgs V3) with Ok st => dirs st | _ => [] end) = true /\
+    existsb (fun e => objtype_eqb (d_type e) TStream)
+            (match open_model true (imgs V3) with Ok st => dirs st | _ => [] end) = true.
+  Proof. vm_compute. split; reflexivity. Qed.
+End WfOpenExample.
 
 Check wf_certificate.
 Check wf_header_ok.
-Check difat_loop_ok.
-Check strip_difat_all.
-Check read_fat_ok.
-Check fat_trim.
-Check fat_check_pointees.
 Check wf_alloc_validate_ok.
 Check wf_open_upto_alloc.
-Check mf_chain.
-Check mf_read.
 Check wf_mini_validate_ok.
 Check wf_open_given_dir.
 Check wf_dir_loop_ok.
 Check decode_entry.
 Check blank_entry_ok.
+Check wf_open_given_entries.
+Check tree_walk_inv.
+Check wf_dir_validate_ok.
+Check wf_entries_ok.
+Check wf_size_ok.
+Check wf_open_cert.
+Check wf_open_opened.
 Check wf_open_ok.
+Check wf_open_opened_permissive.
 Check wf_open_ok_permissive.
 Print Assumptions wf_certificate.
-Print Assumptions wf_header_ok.
-Print Assumptions wf_alloc_validate_ok.
-Print Assumptions wf_open_upto_alloc.
-Print Assumptions wf_mini_validate_ok.
-Print Assumptions wf_open_given_dir.
-Print Assumptions wf_dir_loop_ok.
-Print Assumptions decode_entry.
-Print Assumptions blank_entry_ok.
+Print Assumptions wf_open_given_entries.
+Print Assumptions wf_dir_validate_ok.
+Print Assumptions wf_entries_ok.
+Print Assumptions wf_open_cert.
+Print Assumptions wf_open_opened.
 Print Assumptions wf_open_ok.
+Print Assumptions wf_open_opened_permissive.
 Print Assumptions wf_open_ok_permissive.
 Print Assumptions Gaps.storage_start_nonzero.
+Print Assumptions Gaps.bytes_ok_needed.
+Print Assumptions WfOpenExample.opened_by_theorem.
